@@ -345,7 +345,7 @@ class LexicalParent(HasLabel, Generic[ChildType], ABC):
         )
 
     def _this_child_is_already_at_a_different_label(self, child, label) -> bool:
-        return child.parent is self and label != child.label
+        return child in self.children.inv and label != child.label
 
     def _get_unique_label(self, label: str, strict_naming: bool) -> str:
         if label in self.__dir__():
